@@ -4,7 +4,7 @@
 From Coq Require Import List NArith Bool Lia Permutation Sorted.
 Import ListNotations.
 Require Import RV.Lib.PyStr RV.Proofs.PyStrLemmas RV.Model.ContentLine RV.Model.Vobj RV.Model.C14Spec.
-Require RV.Proofs.TreeProofs RV.Proofs.TextProofs RV.Proofs.C14Final.
+Require RV.Proofs.TreeProofs RV.Proofs.TextProofs RV.Proofs.C14Final RV.Proofs.StrOrder RV.Proofs.LinesProofs.
 Require Import RV.Proofs.CleanupProofs RV.Proofs.CanonProofs RV.Proofs.FixedPointProofs.
 Import CleanupNames.
 Open Scope N_scope.
@@ -292,6 +292,51 @@ Proof.
   apply Forall_map_pres; [intros x _; apply sc_ok_canon|]. apply sc_fixed_fwd. exact E.
 Qed.
 
+(* ------------------------------------------------------------------ 4b. the consistency of the reference DTSTART is kept *)
+Lemma cdc_ext : forall a b, lines_named s_DTSTART a = lines_named s_DTSTART b ->
+  comp_dtstart_consistent a = comp_dtstart_consistent b.
+Proof. intros a b H. unfold comp_dtstart_consistent. rewrite H. reflexivity. Qed.
+
+Lemma sanitize_children_dtc : forall ch ch', children_dtstart_consistent ch = true ->
+  sanitize_children ch = Some ch' -> children_dtstart_consistent ch' = true.
+Proof.
+  intros ch. induction ch as [|x r IH]; intros ch' Hc H.
+  - cbn in H. injection H as <-. reflexivity.
+  - rewrite sanitize_children_cons in H. unfold children_dtstart_consistent in Hc. cbn [forallb] in Hc.
+    apply andb_prop in Hc. destruct Hc as [Hx Hr].
+    destruct (sanitize_children r) as [r'|] eqn:Er; [|discriminate]. specialize (IH r' Hr eq_refl).
+    unfold children_dtstart_consistent in *.
+    destruct x as [l|n sub].
+    + injection H as <-. cbn [forallb]. exact IH.
+    + destruct (is_main_component n) eqn:Hm.
+      * destruct (fix_dates (fix_zero_duration sub)) as [sub'|] eqn:Ef; [|discriminate]. injection H as <-.
+        cbn [forallb]. rewrite IH, Hm. cbn [negb orb] in *. rewrite andb_true_r.
+        rewrite (cdc_ext sub' (fix_zero_duration sub)); [rewrite comp_dtstart_consistent_fixed; exact Hx|].
+        apply (lines_named_fix_dates s_DTSTART _ _ eq_refl eq_refl Ef).
+      * injection H as <-. cbn [forallb]. rewrite IH, Hm. reflexivity.
+Qed.
+
+Lemma sanitize_dtc : forall w y, dtstart_consistent w = true -> sanitize w = Some y -> dtstart_consistent y = true.
+Proof.
+  intros w y Hc H. rewrite sanitize_unfold in H. destruct w as [l|n ch]; [injection H as <-; exact Hc|].
+  unfold dtstart_consistent in *. destruct (eqs n s_VCALENDAR) eqn:En; [|injection H as <-; rewrite En; reflexivity].
+  destruct (sanitize_children ch) as [ch'|] eqn:E; [|discriminate]. injection H as <-. rewrite En. cbn [negb orb] in *.
+  eapply sanitize_children_dtc; eassumption.
+Qed.
+
+Lemma canon_node_dtc : forall y, dtstart_consistent y = true -> dtstart_consistent (canon_node y) = true.
+Proof.
+  intros [l|n ch] H; [reflexivity|]. rewrite canon_node_C. unfold dtstart_consistent in *.
+  destruct (eqs n s_VCALENDAR); [|reflexivity]. cbn [negb orb] in *. unfold children_dtstart_consistent in *.
+  rewrite forallb_forall in *. intros x' Hx'.
+  apply (Permutation_in _ (order_children_perm n (map canon_node ch))) in Hx'.
+  apply in_map_iff in Hx'. destruct Hx' as [x [<- Hx]]. specialize (H x Hx).
+  destruct x as [l|m sub]; [reflexivity|]. rewrite canon_node_C.
+  destruct (is_main_component m) eqn:Hm; [|reflexivity]. cbn [negb orb] in *.
+  rewrite (cdc_ext _ sub); [exact H|].
+  rewrite (order_children_main _ _ Hm). rewrite lines_named_order_default. apply lines_named_map_canon.
+Qed.
+
 (* ------------------------------------------------------------------ 5. the stages commute: output in stage-normal form *)
 Theorem put_stages_commute : forall x y,
   multi_stable [] x = true ->                               (* no multi-TEXT value ending in an empty element *)
@@ -306,20 +351,11 @@ Proof.
   - apply canon_node_idem.
 Qed.
 
+Lemma put_stages_dtc : forall x y, dtstart_consistent (canon_values [] x) = true ->
+  sanitize (canon_values [] x) = Some y -> dtstart_consistent (canon_node y) = true.
+Proof. intros x y Hd Hs. apply canon_node_dtc. eapply sanitize_dtc; eassumption. Qed.
+
 (* ------------------------------------------------------------------ 6. boolean forms of the line-level premises *)
-Fixpoint wf_nodeb (x : node) : bool :=
-  match x with
-  | L l => negb (eqs (cl_name l) s_BEGIN) && negb (eqs (cl_name l) s_END)
-  | C n ch => eqs (upper_ascii n) n && forallb wf_nodeb ch
-  end.
-
-Lemma wf_nodeb_sound : forall x, wf_nodeb x = true -> TreeProofs.wf_node x.
-Proof.
-  induction x as [l | n ch IH] using TreeProofs.node_ind'; intros H; cbn [wf_nodeb] in H; apply andb_prop in H; destruct H as [H1 H2].
-  - constructor; [apply negb_true_iff in H1; exact H1|apply negb_true_iff in H2; exact H2].
-  - constructor; [apply eqs_eq; exact H1|]. rewrite forallb_forall in H2. rewrite Forall_forall in *. intros y Hy. apply IH; auto.
-Qed.
-
 Fixpoint sortedb (ps : list (pystr * list pystr)) : bool :=
   match ps with [] => true | a :: r => forallb (fun b => str_ltb (fst a) (fst b)) r && sortedb r end.
 Definition no_brkb (s : pystr) : bool := forallb (fun c => negb (is_brk c)) s.
@@ -597,15 +633,206 @@ Proof.
     cbn [forallb] in H. apply andb_prop in H. destruct H as [Ha Hb]. f_equal; [apply Hy; exact Ha|]. apply IHr; assumption.
 Qed.
 
+(* ------------------------------------------------------------------ 6c. tree shape *)
+Import TreeProofs.
+Lemma upper_c_idem : forall c, upper_c (upper_c c) = upper_c c.
+Proof.
+  intros c. unfold upper_c. destruct ((97 <=? c) && (c <=? 122)) eqn:E; [|rewrite E; reflexivity].
+  apply andb_true_iff in E. destruct E as [E1 E2]. apply N.leb_le in E1, E2.
+  assert (F : (97 <=? c - 32) = false) by (apply N.leb_gt; lia). rewrite F. reflexivity.
+Qed.
+Lemma upper_ascii_idem : forall s, upper_ascii (upper_ascii s) = upper_ascii s.
+Proof. intros s. unfold upper_ascii. rewrite map_map. apply map_ext. intros c. apply upper_c_idem. Qed.
+
+(* ------------------------------------------------------------------ 4c. tree shape: build yields components with upper-case names *)
+Definition comp_wf (x : node) : Prop := (exists n ch, x = C n ch) /\ wf_node x.
+Definition frame_wf (f : frame) : Prop := upper_ascii (fst f) = fst f /\ Forall wf_node (snd f).
+
+Lemma build_aux_wf : forall ls stack tops xs, Forall frame_wf stack -> Forall comp_wf tops ->
+  build_aux ls stack tops = Some xs -> Forall comp_wf xs.
+Proof.
+  induction ls as [|l r IH]; intros stack tops xs Hs Ht H.
+  - cbn [build_aux] in H. destruct stack; [|discriminate]. injection H as <-.
+    rewrite Forall_forall in *. intros x Hx. apply Ht. apply in_rev. exact Hx.
+  - cbn [build_aux] in H. destruct (eqs (cl_name l) s_BEGIN) eqn:Eb.
+    + eapply IH; [|exact Ht|exact H]. constructor; [|exact Hs]. split; [apply upper_ascii_idem|constructor].
+    + destruct (eqs (cl_name l) s_END) eqn:Ee.
+      * destruct stack as [|[n ch] st]; [discriminate|]. destruct (eqs (upper_ascii (cl_value l)) n); [|discriminate].
+        inversion Hs as [|? ? [Hn Hch] Hst]; subst. cbn [fst snd] in *.
+        assert (Wc : wf_node (C n (rev ch))).
+        { constructor; [exact Hn|]. rewrite Forall_forall in *. intros x Hx. apply Hch. apply in_rev. exact Hx. }
+        destruct st as [|[n' ch'] st'].
+        -- eapply IH; [constructor| |exact H]. constructor; [|exact Ht]. split; [eexists _, _; reflexivity|exact Wc].
+        -- eapply IH; [|exact Ht|exact H]. inversion Hst as [|? ? [Hn' Hch'] Hst']; subst. cbn [fst snd] in *.
+           constructor; [|exact Hst']. split; [exact Hn'|]. cbn [snd]. constructor; assumption.
+      * destruct stack as [|[n ch] st]; [discriminate|].
+        inversion Hs as [|? ? [Hn Hch] Hst]; subst. cbn [fst snd] in *.
+        eapply IH; [|exact Ht|exact H]. constructor; [|exact Hst]. split; [exact Hn|]. cbn [snd].
+        constructor; [|exact Hch]. constructor; assumption.
+Qed.
+
+Lemma build_wf : forall ls xs, build ls = Some xs -> Forall comp_wf xs.
+Proof. intros ls xs H. eapply build_aux_wf; [| |exact H]; constructor. Qed.
+
+Lemma wf_L_name : forall l l', cl_name l' = cl_name l -> wf_node (L l) -> wf_node (L l').
+Proof. intros l l' E W. inversion W; subst. constructor; rewrite E; assumption. Qed.
+
+Lemma canon_value_name : forall c l, cl_name (canon_value c l) = cl_name l.
+Proof. intros c l. unfold canon_value. destruct (value_class c l); reflexivity. Qed.
+
+Lemma Forall_map_in : forall (A : Type) (P : A -> Prop) (f : A -> A) (l : list A),
+  Forall (fun x => P x -> P (f x)) l -> Forall P l -> Forall P (map f l).
+Proof.
+  intros A P f l HI H. induction H as [|a r Ha Hr IH]; [constructor|]. inversion HI; subst.
+  cbn [map]. constructor; auto.
+Qed.
+
+Lemma wf_canon_values : forall x c, wf_node x -> wf_node (canon_values c x).
+Proof.
+  induction x as [l | n ch IH] using node_ind'; intros c W.
+  - cbn [canon_values]. eapply wf_L_name; [apply canon_value_name|exact W].
+  - inversion W; subst. rewrite canon_values_C. constructor; [assumption|].
+    apply Forall_map_in; [|assumption]. rewrite Forall_forall in *. intros y Hy Wy. apply IH; assumption.
+Qed.
+
+Lemma wf_sort_node : forall x, wf_node x -> wf_node (sort_node x).
+Proof.
+  induction x as [l | n ch IH] using node_ind'; intros W.
+  - cbn [sort_node]. eapply wf_L_name; [|exact W]. reflexivity.
+  - inversion W; subst. cbn [sort_node]. constructor; [assumption|].
+    apply Forall_map_in; [|assumption]. rewrite Forall_forall in *. intros y Hy Wy. apply IH; assumption.
+Qed.
+
+Lemma wf_canon_node : forall x, wf_node x -> wf_node (canon_node x).
+Proof.
+  induction x as [l | n ch IH] using node_ind'; intros W; [exact W|].
+  inversion W; subst. rewrite canon_node_C. constructor; [assumption|].
+  eapply Forall_perm; [apply order_children_perm|].
+  apply Forall_map_in; [|assumption]. rewrite Forall_forall in *. intros y Hy Wy. apply IH; assumption.
+Qed.
+
+Lemma fix_dates_children_wf : forall ref rt a b,
+  Forall wf_node a -> fix_dates_children ref rt a = Some b -> Forall wf_node b.
+Proof.
+  intros ref rt a. induction a as [|x r IH]; intros b Ha Hb.
+  - cbn in Hb. injection Hb as <-. constructor.
+  - rewrite fix_dates_children_cons in Hb. inversion Ha as [|? ? Hx Hr]; subst.
+    destruct (fix_dates_children ref rt r) as [r'|] eqn:Er; [|discriminate]. specialize (IH r' Hr eq_refl).
+    destruct x as [l|n s].
+    + destruct (eqs (cl_name l) s_EXDATE || eqs (cl_name l) s_RDATE).
+      * destruct (fix_dates_line ref rt l) as [l'|] eqn:El; [|discriminate]. injection Hb as <-.
+        constructor; [|exact IH]. eapply wf_L_name; [apply (fix_dates_line_name _ _ _ _ El)|exact Hx].
+      * injection Hb as <-. constructor; assumption.
+    + injection Hb as <-. constructor; assumption.
+Qed.
+
+Lemma fix_dates_wf : forall a b, Forall wf_node a -> fix_dates a = Some b -> Forall wf_node b.
+Proof.
+  intros a b Ha Hb. unfold fix_dates in Hb. destruct (lines_named s_DTSTART a) as [|ref r].
+  - injection Hb as <-. exact Ha.
+  - destruct (dtstart_type ref); try discriminate; eapply fix_dates_children_wf; eassumption.
+Qed.
+
+Lemma sanitize_children_wf : forall ch ch', Forall wf_node ch -> sanitize_children ch = Some ch' -> Forall wf_node ch'.
+Proof.
+  intros ch. induction ch as [|x r IH]; intros ch' Ha Hb.
+  - cbn in Hb. injection Hb as <-. constructor.
+  - rewrite sanitize_children_cons in Hb. inversion Ha as [|? ? Hx Hr]; subst.
+    destruct (sanitize_children r) as [r'|] eqn:Er; [|discriminate]. specialize (IH r' Hr eq_refl).
+    destruct x as [l|n sub].
+    + injection Hb as <-. constructor; assumption.
+    + destruct (is_main_component n).
+      * destruct (fix_dates (fix_zero_duration sub)) as [sub'|] eqn:Ef; [|discriminate]. injection Hb as <-.
+        constructor; [|exact IH]. inversion Hx; subst. constructor; [assumption|].
+        eapply fix_dates_wf; [|exact Ef]. apply fix_zero_duration_Forall. assumption.
+      * injection Hb as <-. constructor; assumption.
+Qed.
+
+Lemma wf_sanitize : forall w y, wf_node w -> sanitize w = Some y -> wf_node y.
+Proof.
+  intros w y W H. rewrite sanitize_unfold in H. destruct w as [l|n ch]; [injection H as <-; exact W|].
+  destruct (eqs n CleanupNames.s_VCALENDAR); [|injection H as <-; exact W].
+  destruct (sanitize_children ch) as [ch'|] eqn:E; [|discriminate]. injection H as <-.
+  inversion W; subst. constructor; [assumption|]. eapply sanitize_children_wf; eassumption.
+Qed.
+
+(* the printed tree of an accepted upload is one component with upper-case component names, no BEGIN/END property *)
+Lemma put_tree_shape : forall ls x y, build ls = Some [x] -> sanitize (canon_values [] x) = Some y ->
+  exists n ch, sort_node (canon_node y) = C n ch /\ wf_node (sort_node (canon_node y)).
+Proof.
+  intros ls x y Hb Hs. apply build_wf in Hb. inversion Hb as [|? ? [[n [ch E]] W] _]; subst.
+  assert (Wz : wf_node (sort_node (canon_node y))).
+  { apply wf_sort_node. apply wf_canon_node. eapply wf_sanitize; [|exact Hs]. apply wf_canon_values. exact W. }
+  rewrite canon_values_C in Hs. rewrite sanitize_unfold in Hs.
+  assert (exists ch', y = C n ch') as [ch' ->].
+  { destruct (eqs n CleanupNames.s_VCALENDAR); [|injection Hs as <-; eexists; reflexivity].
+    destruct (sanitize_children _); [|discriminate]. injection Hs as <-. eexists; reflexivity. }
+  rewrite canon_node_C in *. cbn [sort_node] in *. eexists _, _. split; [reflexivity|exact Wz].
+Qed.
+
+(* ------------------------------------------------------------------ 6d. what the line check already implies *)
+Lemma lookup_all_gt : forall k l, forallb (fun b => str_ltb k (fst b)) l = true -> lookup k l = None.
+Proof.
+  intros k l. induction l as [|h t IH]; intros H; [reflexivity|]. cbn [forallb] in H. apply andb_prop in H. destruct H as [H1 H2].
+  rewrite lookup_cons. rewrite CleanupProofs.eqs_sym. rewrite (StrOrder.str_ltb_eqs _ _ H1). apply IH. exact H2.
+Qed.
+
+Lemma forallb_insert_param : forall (P : pystr * list pystr -> bool) a l,
+  forallb P (insert_param a l) = P a && forallb P l.
+Proof.
+  intros P a l. induction l as [|h t IH]; [reflexivity|]. cbn [insert_param].
+  destruct (str_leb (fst h) (fst a)); cbn [forallb]; [rewrite IH|reflexivity].
+  destruct (P h); destruct (P a); reflexivity.
+Qed.
+
+Lemma sorted_insert_inv : forall a l, sortedb (insert_param a l) = true -> sortedb l = true /\ lookup (fst a) l = None.
+Proof.
+  intros a l. induction l as [|h t IH]; intros H; [split; reflexivity|]. cbn [insert_param] in H.
+  destruct (str_leb (fst h) (fst a)).
+  - cbn [sortedb] in H. apply andb_prop in H. destruct H as [H1 H2]. destruct (IH H2) as [S Lk].
+    rewrite forallb_insert_param in H1. apply andb_prop in H1. destruct H1 as [Ha Ht]. split.
+    + cbn [sortedb]. rewrite Ht, S. reflexivity.
+    + rewrite lookup_cons. rewrite (StrOrder.str_ltb_eqs _ _ Ha). exact Lk.
+  - cbn [sortedb] in H. apply andb_prop in H. destruct H as [H1 H2]. split; [exact H2|]. apply lookup_all_gt. exact H1.
+Qed.
+
+Lemma nodup_of_sorted : forall ps, sortedb (sort_params ps) = true -> nodup_keysb ps = true.
+Proof.
+  induction ps as [|a r IH]; intros H; [reflexivity|]. unfold sort_params in H. cbn [fold_right] in H. fold (sort_params r) in H.
+  destruct (sorted_insert_inv _ _ H) as [S Lk]. specialize (IH S). cbn [nodup_keysb]. rewrite IH.
+  rewrite (lookup_sort r IH) in Lk. rewrite Lk. reflexivity.
+Qed.
+
+Lemma forallb_flatten_all : forall (P : cl -> bool) l, forallb P (flatten_all l) = true ->
+  forall y, In y l -> forallb P (flatten y) = true.
+Proof.
+  intros P l. induction l as [|x r IH]; intros H y Hy; [destruct Hy|]. rewrite flatten_all_cons in H. rewrite forallb_app in H.
+  apply andb_prop in H. destruct H as [H1 H2]. destruct Hy as [<-|Hy]; [exact H1|apply IH; assumption].
+Qed.
+
+Lemma wf_clb_sorted : forall l, wf_clb l = true -> sortedb (cl_params l) = true.
+Proof.
+  intros l H. unfold wf_clb in H. repeat (apply andb_prop in H; let H' := fresh "P" in destruct H as [H H']). assumption.
+Qed.
+
+Lemma lines_check_implies : forall x, forallb wf_clb (flatten (sort_node x)) = true -> ndb x = true /\ sorted_after x = true.
+Proof.
+  induction x as [l | n ch IH] using node_ind'; intros H.
+  - cbn [sort_node flatten forallb] in H. rewrite andb_true_r in H. apply wf_clb_sorted in H. unfold sort_cl in H. cbn [cl_params] in H.
+    cbn [ndb sorted_after]. split; [apply nodup_of_sorted|]; exact H.
+  - cbn [sort_node] in H. rewrite flatten_C in H. cbn [forallb] in H. apply andb_prop in H. destruct H as [_ H].
+    rewrite forallb_app in H. apply andb_prop in H. destruct H as [H _].
+    cbn [ndb sorted_after]. rewrite !forallb_forall. rewrite Forall_forall in IH.
+    split; intros y Hy; apply (IH y Hy); apply (forallb_flatten_all _ _ H); apply in_map; exact Hy.
+Qed.
+
 (* what remains to be CHECKED on the stored object (computable; observed on every generated object by checks/C14.py):
-   parameter names distinct within a line; and, on the tree with sorted parameters -- the one the next read builds --:
-   one component, well-formed lines, no vCard PHOTO, clean-up-free text, not quoted-printable, outside the known
-   class C14:fold-ws; the reference DTSTARTs still consistent *)
+   on the tree with sorted parameters -- the one the next read builds --: well-formed lines (names, parameter values
+   non-empty and without DQUOTE, strictly sorted i.e. distinct parameter names, no line break), no vCard PHOTO, clean-up-free text, not quoted-printable, outside the known
+   class C14:fold-ws *)
 Definition out_okb (z : node) : bool :=
   let z' := sort_node z in
-  match z with C _ _ => true | L _ => false end
-  && ndb z && sorted_after z && dtstart_consistent z
-  && wf_nodeb z' && forallb wf_clb (flatten z') && folds_normallyb [] z'
+  forallb wf_clb (flatten z') && folds_normallyb [] z'
   && eqs (read_cleanup (print_node [] z')) (print_node [] z')
   && forallb (fun l => negb (mentions_qp (print_cl l))) (flatten z')
   && forallb (fun p => negb (ws_only_line p)) (phys_lines (print_node [] z')).
@@ -630,18 +857,21 @@ Theorem put_output_normal : forall s s',
 Proof.
   intros s s' Hp Hside. unfold put_model in Hp. unfold put_side_ok in Hside.
   destruct (parse_lines_qp (read_cleanup s)) as [ls|]; [|discriminate].
-  destruct (build ls) as [[|x [|? ?]]|]; try discriminate.
+  destruct (build ls) as [[|x [|? ?]]|] eqn:Hb; try discriminate.
   destruct (sanitize (canon_values [] x)) as [y|] eqn:Hs; [|discriminate]. injection Hp as <-.
   apply andb_prop in Hside. destruct Hside as [Hside Ho]. apply andb_prop in Hside. destruct Hside as [Hm Hd].
   destruct (put_stages_commute x y Hm Hd Hs) as [Hv [Hc Hn]].
+  pose proof (put_tree_shape ls x y Hb Hs) as Hshape.
+  pose proof (put_stages_dtc x y Hd Hs) as Hdz.
   set (z := canon_node y) in *. exists (sort_node z).
   unfold out_okb in Ho. cbv zeta in Ho. repeat (apply andb_prop in Ho; let H' := fresh "Q" in destruct Ho as [Ho H']).
+  assert (Hnd : ndb z = true /\ sorted_after z = true) by (apply lines_check_implies; assumption).
+  destruct Hnd as [Hnd Hsa].
   assert (Ep : print_node [] (sort_node z) = print_node [] z) by (apply print_node_sort; assumption).
   rewrite <- Ep.
   split; [reflexivity|]. split; [|split; [|split]].
   - constructor.
-    + destruct z as [l|n ch]; [discriminate|]. cbn [sort_node] in *. eexists _, _. split; [reflexivity|].
-      apply wf_nodeb_sound. assumption.
+    + exact Hshape.
     + rewrite forallb_forall in *. rewrite Forall_forall. intros l Hl. apply wf_clb_sound. auto.
     + rewrite canon_values_sort by assumption. rewrite Hv. reflexivity.
     + apply sanitize_sort_fixed; assumption.
